@@ -290,8 +290,17 @@ fn hist_case(line: &str) -> String {
         for h in handles {
             for (k, s) in h.join().unwrap() { if s != seq_out[k] { conc_ok = false; } }
         }
+        // the same evaluations again, each on a fresh copy of its document that lives in ONE reused slot and is dropped right
+        // after: anything remembered by address (a cache keyed on the document pointer) now sees other contents at that address
+        let mut slot_ok = true;
+        for (k, (qi, di)) in ops.iter().enumerate() {
+            let slot: Box<Value> = Box::new(docs[*di].clone());
+            let out = render(&slot, slot.query_with_path(&queries[*qi]));
+            if out != seq_out[k] { slot_ok = false; }
+            drop(slot);
+        }
         let unchanged = snapshot == docs;
-        format!("{{\"seq\":[{}],\"parsed_agrees\":{},\"threads_agree\":{},\"docs_unchanged\":{}}}", seq_out.join(","), agree, conc_ok, unchanged)
+        format!("{{\"seq\":[{}],\"parsed_agrees\":{},\"threads_agree\":{},\"docs_unchanged\":{},\"slot_reuse_agrees\":{}}}", seq_out.join(","), agree, conc_ok, unchanged, slot_ok)
     });
     match r { Ok(s) => s, Err(_) => "{\"panic\":1}".to_string() }
 }
